@@ -59,6 +59,11 @@ func GenAdmission(prop string, seed uint64, thorough bool) *Scenario {
 		att.Path = &pth
 	}
 	sc.Attach = att
+	if att.NoOptions {
+		// Attach(server, nil): no server options reach the engine either, everything is at its default
+		sc.Opts = OptSpec{AllowUpgrades: true, CompThreshold: -1, Transports: []string{"polling", "websocket"}, FailMiddleware: o.FailMiddleware}
+		o = sc.Opts
+	}
 	mount := refMountPath(att) // where a well-behaved client connects
 	// canaries
 	hasPolling, hasWS := false, false
